@@ -18,7 +18,7 @@ import (
 // C17: delegate-key registry.
 
 type RegOp struct {
-	Kind  string `json:"kind"` // reg | vote | block
+	Kind  string `json:"kind"` // reg | vote | block | remove | recreate
 	Val   int    `json:"val"`  // validator index; == number of validators means "not a validator"
 	Chain int    `json:"chain"`
 	EKey  int    `json:"ekey"`            // external key from a small pool
@@ -74,6 +74,14 @@ func genRegCase(t *rapid.T) interface{} {
 			op.Orch = rapid.IntRange(0, regOrchs-1).Draw(t, "orch")
 		default:
 			op.Kind = "block"
+			switch rapid.IntRange(0, 5).Draw(t, "staking") {
+			case 0:
+				op.Kind = "remove" // the validator leaves the staking store (finished unbonding without delegations); its bindings stay
+				op.Val = rapid.IntRange(0, c.NVals-1).Draw(t, "val")
+			case 1:
+				op.Kind = "recreate" // the operator creates the validator again
+				op.Val = rapid.IntRange(0, c.NVals-1).Draw(t, "val")
+			}
 		}
 		c.Ops = append(c.Ops, op)
 	}
@@ -177,11 +185,35 @@ func runRegCase(ci interface{}, rec *pbt.Rec) *pbt.Failure {
 			if err := h.Begin(height, now); err != nil {
 				return nil
 			}
+		case "remove", "recreate":
+			v, gone := op.Val%c.NVals, op.Kind == "remove"
+			h.QueueStaking(func(s *sim.SimStaking) {
+				n := 0
+				for _, x := range s.Vals {
+					if x.Bonded && !x.Removed {
+						n++
+					}
+				}
+				if gone && n > 1 {
+					s.Vals[v].Removed, s.Vals[v].Bonded = true, false
+				}
+				if !gone && s.Vals[v].Removed {
+					s.Vals[v].Removed, s.Vals[v].Bonded = false, true
+				}
+			})
+			if err := h.End(); err != nil {
+				return nil
+			}
+			height++
+			now += 5
+			if err := h.Begin(height, now); err != nil {
+				return nil
+			}
 		case "reg":
-			isVal := op.Val < c.NVals
+			isVal := op.Val < c.NVals && !h.Staking.Vals[op.Val].Removed
 			var valAddr sdk.ValAddress
-			if isVal {
-				valAddr = sim.ValAddr(op.Val)
+			if op.Val < c.NVals {
+				valAddr = sim.ValAddr(op.Val) // (a validator that left the staking store is no validator any more)
 			} else {
 				valAddr = sdk.ValAddress(sim.UserAddr(1)) // an account that is no validator
 			}
